@@ -55,17 +55,17 @@ def handle : Handler := fun op args =>
   | "c07.mb_pdf" => withArgs p2 args fun (x, a) => cls (fun T => pdfMB T x a)
   | "c07.mb_cdf" => withArgs p2 args fun (x, a) => cls (fun T => cdfMB T x a)
   | "c07.loglik" => withArgs (do let s ← pRat; let n ← pNat; let b ← pRat; pure (s, n, b)) args fun (s, n, b) =>
-      if s + b ≤ 0 then "undef" else clsR (fun T => logLikelihoodPoisson T s n b)
+      if s + b < 0 ∨ (s + b = 0 ∧ n ≠ 0) then "undef" else clsR (fun T => logLikelihoodPoisson T s n b)
   | "c07.lik" => withArgs (do let s ← pRat; let n ← pNat; let b ← pRat; pure (s, n, b)) args fun (s, n, b) =>
-      if s + b ≤ 0 then "undef" else clsR (fun T => likelihoodPoisson T s n b)
+      if s + b < 0 ∨ (s + b = 0 ∧ n ≠ 0) then "undef" else clsR (fun T => likelihoodPoisson T s n b)
   | "c07.loglik_b" => withArgs pBins args fun (s, n, b) =>
       match bins s n b with
       | .error _ => "err"
-      | .ok l => if l.any (fun t => t.1 + t.2.2 ≤ 0) then "undef" else "ok glue " ++ toString l.length
+      | .ok l => if l.any (fun t => t.1 + t.2.2 < 0 ∨ (t.1 + t.2.2 = 0 ∧ t.2.1 ≠ 0)) then "undef" else "ok glue " ++ toString l.length
   | "c07.lik_b" => withArgs pBins args fun (s, n, b) =>
       match bins s n b with
       | .error _ => "err"
-      | .ok l => if l.any (fun t => t.1 + t.2.2 ≤ 0) then "undef" else "ok glue " ++ toString l.length
+      | .ok l => if l.any (fun t => t.1 + t.2.2 < 0 ∨ (t.1 + t.2.2 = 0 ∧ t.2.1 ≠ 0)) then "undef" else "ok glue " ++ toString l.length
   | "c07.kde" => withArgs (do let d ← pList (do let v ← pRat; let w ← pRat; pure (v, w)); let a ← pRat; let b ← pRat; let bw ← pRat; pure (d, a, b, bw)) args
       fun (d, a, b, bw) =>
       if d.length = 0 ∨ b ≤ a ∨ bw < 0 ∨ d.any (fun p => p.2 < 0) ∨ (d.foldl (fun acc p => acc + p.2) 0) ≤ 0 then "undef"
